@@ -73,6 +73,26 @@ def DirT.ok : DirT → Prop
   | .price d c p t => DateOK d ∧ CommodityOK c ∧ DecimalOK p ∧ CommodityOK t
   | .include p => ContentOK p
 
+/-- all tokens canonical: they decode back from their own bytes -/
+def Canon (c : List Tok) : Prop := ∀ t ∈ c, t.canon
+
+def BookingT.canon (b : BookingT) : Prop := Canon b.credit ∧ Canon b.debit ∧ Canon b.quantity ∧ Canon b.commodity
+def BalanceT.canon (b : BalanceT) : Prop := Canon b.account ∧ Canon b.quantity ∧ Canon b.commodity
+def AccrualT.canon (a : AccrualT) : Prop := Canon a.interval ∧ Canon a.start ∧ Canon a.stop ∧ Canon a.account
+
+def DirT.canon : DirT → Prop
+  | .transaction accr perf date desc bs =>
+    (∀ a, accr = some a → a.canon) ∧ (∀ ts, perf = some ts → ∀ t ∈ ts, Canon t) ∧ Canon date ∧ Canon desc ∧ ∀ b ∈ bs, b.canon
+  | .open d a => Canon d ∧ Canon a
+  | .close d a => Canon d ∧ Canon a
+  | .assertion d bs => Canon d ∧ ∀ b ∈ bs, b.canon
+  | .price d c p t => Canon d ∧ Canon c ∧ Canon p ∧ Canon t
+  | .include p => Canon p
+
+/-- validly encoded tokens consumed from a scan of `text` are canonical -/
+theorem Good.canonOf {text : Bytes} {s s' : St} {c : List Tok} (hG : Good text s) (hc : Consumed s c s') (hv : Valid c) :
+    Canon c := fun t ht => hG.canon t (by rw [hc.1]; exact List.mem_append_left _ ht) (hv t ht)
+
 /-- the bytes of consumed tokens are the slice of the text between the two offsets -/
 theorem Good.extract {text : Bytes} {s s' : St} {c : List Tok} (hG : Good text s) (hc : Consumed s c s') :
     Range.extract text ⟨s.off, s'.off⟩ = some (flat c) ∧ Good text s' := by
@@ -110,7 +130,7 @@ theorem readRest_okV {s : St} {r : Range} {s' : St} (h : readRestOfWhitespaceLin
 
 theorem parseBooking_sound {text : Bytes} {s : St} {b : Booking} {s' : St} (h : parseBooking s = .ok b s')
     (hG : Good text s) (hv : HeadValid s.toks) :
-    ∃ bT : BookingT, bT.ok ∧ viewBooking text b = some bT.bytes ∧ HeadValid s'.toks ∧ Good text s' := by
+    ∃ bT : BookingT, (bT.ok ∧ bT.canon) ∧ viewBooking text b = some bT.bytes ∧ HeadValid s'.toks ∧ Good text s' := by
   unfold parseBooking at h
   simp only [Res.bind_eq_ok] at h
   obtain ⟨cr, s1, h1, _, s2, h2, db, s3, h3, _, s4, h4, q, s5, h5, _, s6, h6, cm, s7, h7, h⟩ := h
@@ -130,14 +150,15 @@ theorem parseBooking_sound {text : Bytes} {s : St} {b : Booking} {s' : St} (h : 
   obtain ⟨e5, G5⟩ := G4.extract k5
   obtain ⟨_, G6⟩ := G5.extract k6
   obtain ⟨e7, G7⟩ := G6.extract k7
-  refine ⟨⟨c1, c3, c5, c7⟩, ⟨⟨⟨_, a1⟩, w1⟩, ⟨⟨_, a3⟩, w3⟩, ⟨a5, w5⟩, ⟨a7, w7⟩⟩, ?_, v7, G7⟩
+  refine ⟨⟨c1, c3, c5, c7⟩, ⟨⟨⟨⟨_, a1⟩, w1⟩, ⟨⟨_, a3⟩, w3⟩, ⟨a5, w5⟩, ⟨a7, w7⟩⟩,
+    ⟨hG.canonOf k1 w1, G2.canonOf k3 w3, G4.canonOf k5 w5, G6.canonOf k7 w7⟩⟩, ?_, v7, G7⟩
   rw [← hb]
   subst r5 r7
   simp [viewBooking, r1, r3, e1, e3, e5, e7, BookingT.bytes]
 
 theorem parseBalance_sound {text : Bytes} {s : St} {b : Balance} {s' : St} (h : parseBalance s = .ok b s')
     (hG : Good text s) (hv : HeadValid s.toks) :
-    ∃ bT : BalanceT, bT.ok ∧ viewBalance text b = some bT.bytes ∧ HeadValid s'.toks ∧ Good text s' := by
+    ∃ bT : BalanceT, (bT.ok ∧ bT.canon) ∧ viewBalance text b = some bT.bytes ∧ HeadValid s'.toks ∧ Good text s' := by
   unfold parseBalance at h
   simp only [Res.bind_eq_ok] at h
   obtain ⟨ac, s1, h1, _, s2, h2, q, s3, h3, _, s4, h4, cm, s5, h5, h⟩ := h
@@ -153,14 +174,14 @@ theorem parseBalance_sound {text : Bytes} {s : St} {b : Balance} {s' : St} (h : 
   obtain ⟨e3, G3⟩ := G2.extract k3
   obtain ⟨_, G4⟩ := G3.extract k4
   obtain ⟨e5, G5⟩ := G4.extract k5
-  refine ⟨⟨c1, c3, c5⟩, ⟨⟨⟨_, a1⟩, w1⟩, ⟨a3, w3⟩, ⟨a5, w5⟩⟩, ?_, v5, G5⟩
+  refine ⟨⟨c1, c3, c5⟩, ⟨⟨⟨⟨_, a1⟩, w1⟩, ⟨a3, w3⟩, ⟨a5, w5⟩⟩, ⟨hG.canonOf k1 w1, G2.canonOf k3 w3, G4.canonOf k5 w5⟩⟩, ?_, v5, G5⟩
   rw [← hb]
   subst r3 r5
   simp [viewBalance, r1, e1, e3, e5, BalanceT.bytes]
 
 theorem parseAccrual_sound {text : Bytes} {s : St} {a : Accrual} {s' : St} (h : parseAccrual s = .ok a s')
     (hG : Good text s) (hv : HeadValid s.toks) :
-    ∃ aT : AccrualT, aT.ok ∧ viewAccrual text a = some aT.bytes ∧ HeadValid s'.toks ∧ Good text s' := by
+    ∃ aT : AccrualT, (aT.ok ∧ aT.canon) ∧ viewAccrual text a = some aT.bytes ∧ HeadValid s'.toks ∧ Good text s' := by
   unfold parseAccrual at h
   simp only [Res.bind_eq_ok] at h
   obtain ⟨_, s1, h1, iv, s2, h2, _, s3, h3, d0, s4, h4, _, s5, h5, d1, s6, h6, _, s7, h7, ac, s8, h8, h⟩ := h
@@ -182,7 +203,8 @@ theorem parseAccrual_sound {text : Bytes} {s : St} {a : Accrual} {s' : St} (h : 
   obtain ⟨e6, G6⟩ := G5.extract k6
   obtain ⟨_, G7⟩ := G6.extract k7
   obtain ⟨e8, G8⟩ := G7.extract k8
-  refine ⟨⟨c2, c4, c6, c8⟩, ⟨⟨a2, w2⟩, ⟨a4, w4⟩, ⟨a6, w6⟩, ⟨⟨_, a8⟩, w8⟩⟩, ?_, v8, G8⟩
+  refine ⟨⟨c2, c4, c6, c8⟩, ⟨⟨⟨a2, w2⟩, ⟨a4, w4⟩, ⟨a6, w6⟩, ⟨⟨_, a8⟩, w8⟩⟩,
+    ⟨G1.canonOf k2 w2, G3.canonOf k4 w4, G5.canonOf k6 w6, G7.canonOf k8 w8⟩⟩, ?_, v8, G8⟩
   rw [← hb]
   subst r2 r4 r6
   simp [viewAccrual, r8, e2, e4, e6, e8, AccrualT.bytes]
@@ -196,9 +218,9 @@ set_option linter.unusedVariables false
 theorem perfLoop_sound {text : Bytes} {start : Nat} {acc : List Commodity} {s : St} {ts : List Commodity} {s' : St}
     (h : perfLoop start acc s = .ok ts s') (hG : Good text s) (hv : HeadValid s.toks)
     (accT : List (List Tok)) (hacc : acc.reverse.mapM (fun (c : Commodity) => c.range.extract text) = some (accT.map flat))
-    (hok : ∀ t ∈ accT, CommodityOK t) :
+    (hok : ∀ t ∈ accT, CommodityOK t ∧ Canon t) :
     ∃ tsT : List (List Tok), ts.mapM (fun (c : Commodity) => c.range.extract text) = some (tsT.map flat) ∧
-      (∀ t ∈ tsT, CommodityOK t) ∧ HeadValid s'.toks ∧ Good text s' := by
+      (∀ t ∈ tsT, CommodityOK t ∧ Canon t) ∧ HeadValid s'.toks ∧ Good text s' := by
   fun_induction perfLoop start acc s generalizing accT with
   | case1 acc s hc =>
     injection h with h1 h2
@@ -225,12 +247,12 @@ theorem perfLoop_sound {text : Bytes} {start : Nat} {acc : List Commodity} {s : 
     · intro t ht
       rcases List.mem_append.mp ht with ht | ht
       · exact hok t ht
-      · simp only [List.mem_singleton] at ht; subst ht; exact ⟨a3, w3⟩
+      · simp only [List.mem_singleton] at ht; subst ht; exact ⟨⟨a3, w3⟩, G2.canonOf k3 w3⟩
 
 theorem parsePerformance_sound {text : Bytes} {s : St} {p : Performance} {s' : St} (h : parsePerformance s = .ok p s')
     (hG : Good text s) (hv : HeadValid s.toks) :
     ∃ tsT : List (List Tok), p.targets.mapM (fun (c : Commodity) => c.range.extract text) = some (tsT.map flat) ∧
-      (∀ t ∈ tsT, CommodityOK t) ∧ HeadValid s'.toks ∧ Good text s' ∧ p.range = ⟨s.off, s'.off⟩ := by
+      (∀ t ∈ tsT, CommodityOK t ∧ Canon t) ∧ HeadValid s'.toks ∧ Good text s' ∧ p.range = ⟨s.off, s'.off⟩ := by
   have hr := (parsePerformance_ok h).1
   unfold parsePerformance at h
   simp only [Res.bind_eq_ok] at h
@@ -242,7 +264,7 @@ theorem parsePerformance_sound {text : Bytes} {s : St} {p : Performance} {s' : S
   obtain ⟨_, G1⟩ := hG.extract k1
   obtain ⟨_, G2⟩ := G1.extract k2
   have hfirst : ∃ fT : List (List Tok), first.reverse.mapM (fun (c : Commodity) => c.range.extract text) = some (fT.map flat) ∧
-      (∀ t ∈ fT, CommodityOK t) ∧ HeadValid s3.toks ∧ Good text s3 := by
+      (∀ t ∈ fT, CommodityOK t ∧ Canon t) ∧ HeadValid s3.toks ∧ Good text s3 := by
     split at h3
     · simp only [Res.bind_eq_ok] at h3
       obtain ⟨c, t1, g1, _, t2, g2, g3⟩ := h3
@@ -253,7 +275,7 @@ theorem parsePerformance_sound {text : Bytes} {s : St} {p : Performance} {s' : S
       obtain ⟨e3, G3⟩ := G2.extract k3
       obtain ⟨_, G4⟩ := G3.extract k4
       subst r3
-      exact ⟨[c3], by simp [e3], by intro t ht; simp only [List.mem_singleton] at ht; subst ht; exact ⟨a3, w3⟩, v4, G4⟩
+      exact ⟨[c3], by simp [e3], by intro t ht; simp only [List.mem_singleton] at ht; subst ht; exact ⟨⟨a3, w3⟩, G2.canonOf k3 w3⟩, v4, G4⟩
     · injection h3 with ga gb
       subst ga gb
       exact ⟨[], by simp, by simp, v2, G2⟩
@@ -267,11 +289,11 @@ theorem parsePerformance_sound {text : Bytes} {s : St} {p : Performance} {s' : S
 def PerfRel (text : Bytes) (perf : Performance) : Option (List (List Tok)) → Prop
   | none => perf.range.empty = true
   | some ts => perf.range.empty = false ∧
-      perf.targets.mapM (fun (c : Commodity) => c.range.extract text) = some (ts.map flat) ∧ ∀ t ∈ ts, CommodityOK t
+      perf.targets.mapM (fun (c : Commodity) => c.range.extract text) = some (ts.map flat) ∧ ∀ t ∈ ts, CommodityOK t ∧ Canon t
 
 def AccrRel (text : Bytes) (accr : Accrual) : Option AccrualT → Prop
   | none => accr.range.empty = true
-  | some a => accr.range.empty = false ∧ viewAccrual text accr = some a.bytes ∧ a.ok
+  | some a => accr.range.empty = false ∧ viewAccrual text accr = some a.bytes ∧ a.ok ∧ a.canon
 
 theorem consumed_width_pos {text : Bytes} {s s' : St} {c : List Tok} (hG : Good text s) (hc : Consumed s c s')
     (hne : c ≠ []) : s.off < s'.off := by
@@ -365,8 +387,8 @@ theorem addonsLoop_sound {text : Bytes} {start : Nat} {perf : Performance} {accr
 theorem bookingsLoop_sound {text : Bytes} {start : Nat} {acc : List Booking} {s : St} {bs : List Booking} {s' : St}
     (h : bookingsLoop start acc s = .ok bs s') (hG : Good text s) (hv : HeadValid s.toks)
     (accT : List BookingT) (hacc : acc.reverse.mapM (viewBooking text) = some (accT.map BookingT.bytes))
-    (hok : ∀ b ∈ accT, b.ok) :
-    ∃ bsT : List BookingT, bsT ≠ [] ∧ bs.mapM (viewBooking text) = some (bsT.map BookingT.bytes) ∧ (∀ b ∈ bsT, b.ok) ∧
+    (hok : ∀ b ∈ accT, b.ok ∧ b.canon) :
+    ∃ bsT : List BookingT, bsT ≠ [] ∧ bs.mapM (viewBooking text) = some (bsT.map BookingT.bytes) ∧ (∀ b ∈ bsT, b.ok ∧ b.canon) ∧
       HeadValid s'.toks ∧ Good text s' := by
   fun_induction bookingsLoop start acc s generalizing accT with
   | case1 acc s e s1 h1 => cases h
@@ -401,8 +423,8 @@ theorem bookingsLoop_sound {text : Bytes} {start : Nat} {acc : List Booking} {s 
 theorem balancesLoop_sound {text : Bytes} {start : Nat} {acc : List Balance} {s : St} {bs : List Balance} {s' : St}
     (h : balancesLoop start acc s = .ok bs s') (hG : Good text s) (hv : HeadValid s.toks)
     (accT : List BalanceT) (hacc : acc.reverse.mapM (viewBalance text) = some (accT.map BalanceT.bytes))
-    (hok : ∀ b ∈ accT, b.ok) :
-    ∃ bsT : List BalanceT, bsT ≠ [] ∧ bs.mapM (viewBalance text) = some (bsT.map BalanceT.bytes) ∧ (∀ b ∈ bsT, b.ok) ∧
+    (hok : ∀ b ∈ accT, b.ok ∧ b.canon) :
+    ∃ bsT : List BalanceT, bsT ≠ [] ∧ bs.mapM (viewBalance text) = some (bsT.map BalanceT.bytes) ∧ (∀ b ∈ bsT, b.ok ∧ b.canon) ∧
       HeadValid s'.toks ∧ Good text s' := by
   fun_induction balancesLoop start acc s generalizing accT with
   | case1 acc s e s1 h1 => cases h
@@ -442,10 +464,10 @@ set_option linter.unusedVariables false
 
 theorem parseTransaction_sound {text : Bytes} {start : Nat} {date : Date} {addons : Addons} {s : St} {t : Transaction}
     {s' : St} (h : parseTransaction start date addons s = .ok t s') (hG : Good text s) (hv : HeadValid s.toks)
-    {dT : List Tok} (hd : date.range.extract text = some (flat dT)) (hdo : DateOK dT)
+    {dT : List Tok} (hd : date.range.extract text = some (flat dT)) (hdo : DateOK dT) (hdc : Canon dT)
     {pT : Option (List (List Tok))} {aT : Option AccrualT}
     (hp : PerfRel text addons.performance pT) (ha : AccrRel text addons.accrual aT) :
-    ∃ v : DirT, v.ok ∧ viewTransaction text t = some v.bytes ∧ HeadValid s'.toks ∧ Good text s' := by
+    ∃ v : DirT, (v.ok ∧ v.canon) ∧ viewTransaction text t = some v.bytes ∧ HeadValid s'.toks ∧ Good text s' := by
   unfold parseTransaction at h
   simp only [Res.bind_eq_ok] at h
   obtain ⟨q, s1, h1, _, s2, h2, bs, s3, h3, h⟩ := h
@@ -466,9 +488,12 @@ theorem parseTransaction_sound {text : Bytes} {start : Nat} {date : Date} {addon
   obtain ⟨bsT, hne, hb, hbo, v3, G3⟩ := bookingsLoop_sound h3 G2 v2 [] (by simp) (by simp)
   have vc : Valid c := (vq.tail).left
   refine ⟨.transaction aT pT dT c bsT, ?_, ?_, v3, G3⟩
-  · refine ⟨?_, ?_, hdo, ⟨ic, vc⟩, hne, hbo⟩
-    · intro a ea; subst ea; exact ha.2.2
-    · intro ts ets; subst ets; exact hp.2.2
+  · have hcc : Canon c := fun t ht => hG.canon t (by rw [kq.1]; simp [ht]) (vc t ht)
+    refine ⟨⟨?_, ?_, hdo, ⟨ic, vc⟩, hne, fun b hb' => (hbo b hb').1⟩, ⟨?_, ?_, hdc, hcc, fun b hb' => (hbo b hb').2⟩⟩
+    · intro a ea; subst ea; exact ha.2.2.1
+    · intro ts ets; subst ets; exact fun t ht => (hp.2.2 t ht).1
+    · intro a ea; subst ea; exact ha.2.2.2
+    · intro ts ets; subst ets; exact fun t ht => (hp.2.2 t ht).2
   · rw [← ht]
     simp only [viewTransaction, DirT.bytes]
     cases aT with
@@ -485,7 +510,7 @@ theorem parseTransaction_sound {text : Bytes} {start : Nat} {date : Date} {addon
 
 theorem parseDirective_sound {text : Bytes} {s : St} {d : Directive} {s' : St} (h : parseDirective s = .ok d s')
     (hG : Good text s) (hv : HeadValid s.toks) :
-    ∃ v : DirT, v.ok ∧ viewDirective text d = some v.bytes ∧ HeadValid s'.toks ∧ Good text s' := by
+    ∃ v : DirT, (v.ok ∧ v.canon) ∧ viewDirective text d = some v.bytes ∧ HeadValid s'.toks ∧ Good text s' := by
   unfold parseDirective at h
   simp only [Res.bind_eq_ok] at h
   obtain ⟨addons, s1, h1, body, s2, h2, h⟩ := h
@@ -532,7 +557,7 @@ theorem parseDirective_sound {text : Bytes} {s : St} {d : Directive} {s' : St} (
         ⟨by simp, rfl⟩
       obtain ⟨e, _⟩ := Gx.extract k2'
       rw [qc]; exact e
-    refine ⟨.include c, ⟨ic, (vq.tail).left⟩, ?_, w3, Gc⟩
+    refine ⟨.include c, ⟨⟨ic, (vq.tail).left⟩, fun t ht => Gb.canon t (by rw [kq.1]; simp [ht]) ((vq.tail).left t ht)⟩, ?_, w3, Gc⟩
     simp [viewDirective, hcontent, DirT.bytes]
   · simp only [Res.bind_eq_ok] at h2
     obtain ⟨date, t1, g1, _, t2, g2, h2⟩ := h2
@@ -547,7 +572,7 @@ theorem parseDirective_sound {text : Bytes} {s : St} {d : Directive} {s' : St} (
       obtain ⟨t, t3, g3, h2⟩ := h2
       injection h2 with ga gb
       subst ga gb
-      obtain ⟨v, vok, vview, w3, Gc⟩ := parseTransaction_sound g3 Gb w2 hde ⟨idate, vdate⟩ hp ha
+      obtain ⟨v, vok, vview, w3, Gc⟩ := parseTransaction_sound g3 Gb w2 hde ⟨idate, vdate⟩ (G1.canonOf kd vdate) hp ha
       exact ⟨v, vok, by simpa [viewDirective] using vview, w3, Gc⟩
     · simp only [Res.bind_eq_ok] at h2
       obtain ⟨⟨r, kw'⟩, t3, g3, _, t4, g4, h2⟩ := h2
@@ -570,7 +595,7 @@ theorem parseDirective_sound {text : Bytes} {s : St} {d : Directive} {s' : St} (
         subst ga gb
         obtain ⟨cA, kA, iA, vA, w5, rA⟩ := parseAccount_sound g6 w4
         obtain ⟨eA, Ge⟩ := Gd.extract kA
-        refine ⟨.open dT cA, ⟨⟨idate, vdate⟩, ⟨⟨_, iA⟩, vA⟩⟩, ?_, w5, Ge⟩
+        refine ⟨.open dT cA, ⟨⟨⟨idate, vdate⟩, ⟨⟨_, iA⟩, vA⟩⟩, ⟨G1.canonOf kd vdate, Gd.canonOf kA vA⟩⟩, ?_, w5, Ge⟩
         simp [viewDirective, hde, rA, eA, DirT.bytes]
       · split at h2
         · -- close
@@ -585,7 +610,7 @@ theorem parseDirective_sound {text : Bytes} {s : St} {d : Directive} {s' : St} (
           subst ga gb
           obtain ⟨cA, kA, iA, vA, w5, rA⟩ := parseAccount_sound g6 w4
           obtain ⟨eA, Ge⟩ := Gd.extract kA
-          refine ⟨.close dT cA, ⟨⟨idate, vdate⟩, ⟨⟨_, iA⟩, vA⟩⟩, ?_, w5, Ge⟩
+          refine ⟨.close dT cA, ⟨⟨⟨idate, vdate⟩, ⟨⟨_, iA⟩, vA⟩⟩, ⟨G1.canonOf kd vdate, Gd.canonOf kA vA⟩⟩, ?_, w5, Ge⟩
           simp [viewDirective, hde, rA, eA, DirT.bytes]
         · split at h2
           · -- assertion
@@ -603,14 +628,15 @@ theorem parseDirective_sound {text : Bytes} {s : St} {d : Directive} {s' : St} (
               obtain ⟨_, k6, w6⟩ := readRest_okV g6 w4
               obtain ⟨_, Ge⟩ := Gd.extract k6
               obtain ⟨bsT, hne, hb, hbo, w7, Gf⟩ := balancesLoop_sound g7 Ge w6 [] (by simp) (by simp)
-              refine ⟨.assertion dT bsT, ⟨⟨idate, vdate⟩, hne, hbo⟩, ?_, w7, Gf⟩
+              refine ⟨.assertion dT bsT, ⟨⟨⟨idate, vdate⟩, hne, fun b hb' => (hbo b hb').1⟩, ⟨G1.canonOf kd vdate, fun b hb' => (hbo b hb').2⟩⟩, ?_, w7, Gf⟩
               simp [viewDirective, hde, hb, DirT.bytes]
             · simp only [Res.bind_eq_ok] at g5
               obtain ⟨b, t6, g6, g5⟩ := g5
               injection g5 with ga gb
               subst ga gb
               obtain ⟨bT, bok, bview, w6, Ge⟩ := parseBalance_sound g6 Gd w4
-              refine ⟨.assertion dT [bT], ⟨⟨idate, vdate⟩, by simp, by intro x hx; simp only [List.mem_singleton] at hx; subst hx; exact bok⟩, ?_, w6, Ge⟩
+              refine ⟨.assertion dT [bT], ⟨⟨⟨idate, vdate⟩, by simp, by intro x hx; simp only [List.mem_singleton] at hx; subst hx; exact bok.1⟩,
+                ⟨G1.canonOf kd vdate, by intro x hx; simp only [List.mem_singleton] at hx; subst hx; exact bok.2⟩⟩, ?_, w6, Ge⟩
               simp [viewDirective, hde, bview, DirT.bytes]
           · -- price
             simp only [Res.bind_eq_ok] at h2
@@ -633,7 +659,8 @@ theorem parseDirective_sound {text : Bytes} {s : St} {d : Directive} {s' : St} (
             obtain ⟨_, H4⟩ := H3.extract kW2
             obtain ⟨eT, H5⟩ := H4.extract kT
             subst rC rP rT
-            refine ⟨.price dT cC cP cT, ⟨⟨idate, vdate⟩, ⟨iC, vC⟩, ⟨iP, vP⟩, ⟨iT, vT⟩⟩, ?_, x5, H5⟩
+            refine ⟨.price dT cC cP cT, ⟨⟨⟨idate, vdate⟩, ⟨iC, vC⟩, ⟨iP, vP⟩, ⟨iT, vT⟩⟩,
+              ⟨G1.canonOf kd vdate, Gd.canonOf kC vC, H2.canonOf kP vP, H4.canonOf kT vT⟩⟩, ?_, x5, H5⟩
             simp [viewDirective, hde, eC, eP, eT, DirT.bytes]
 
 end Knut.Syntax
